@@ -21,6 +21,7 @@ type RunSpec struct {
 	Sched         bool           `json:"sched"`
 	Preempt       int            `json:"preempt"`
 	FuelViolation bool           `json:"fuel_violation"`
+	Collect       bool           `json:"-"`
 	Debug         bool           `json:"-"`
 }
 
@@ -47,6 +48,7 @@ func (l *Loaded) Run(spec RunSpec, solver string, solverMs int) (*interp.Explore
 		}
 		w.SetParams(spec.Params)
 		w.FuelIsViolation(spec.FuelViolation)
+		w.CollectObserved(spec.Collect)
 		if spec.Sched {
 			w.EnableScheduler(spec.Preempt)
 		}
